@@ -82,7 +82,7 @@ def instances(tier, seed):
                     for o in opts:
                         out.append({"name": "hist-%dx%d-r%d-sb%d-A%d-o%d" % (h, w, r0, sb, ai, o), "fn": "history", "timeout": T, "cost": h,
                                     "params": {"h": h, "w": w, "r0": r0, "sb": sb, "A": ai, "keep": bool(o & 1), "hide": bool(o & 2),
-                                               "cc": (ai + r0) % w, "below": (ai + r0 + sb // 2) % 2 == 1,
+                                               "cc": (ai // 2 + r0) % w, "below": (ai + r0 + sb // 2) % 2 == 1,
                                                "seed": seed, "limit": (10 if h == 2 else 4) if tier == "quick" else 40}})
     return out
 
